@@ -12,6 +12,7 @@ Decided:
 Not decided: what the decoder returns for a given prefix (value-level).
 """
 from rules.common import *
+from rules import iolib
 from okimplies import OkImplies, fact_str, TOP
 
 META = {"level": "other", "rule": "who-may-call over the call graph (Seek), must-pass-through in Encoder::new, gate rules shared with C02/C05",
@@ -75,6 +76,16 @@ def run(ctx, rep):
         if b is not None:
             s = ok.summary(b)
             rep.check("C14.frame", "decoder releases a frame only behind %s" % crc, fact_match(s, "valid", crc + "$"), loc_of(b))
+    # ---- C14.len: a block that overruns the declared total is refused before any of it is written
+    eb0 = anchor(F, rep, "C14.len", "encode::Encoder::encode")
+    if eb0 is not None:
+        pf = ok.path_facts(eb0)
+        ef = call_blocks(eb0, r"encode::encode_frame$")
+        gate = lambda f: fact_match(f, "is", "^None$", "total_samples") or fact_match(f, "cmp", "^Le$", "samples_written", "NonZero::get|total")
+        rep.check("C14.len", "encode_frame is reached only with no declared total or samples_written <= total", len(ef) == 1 and ok.must_pass(eb0, ef[0][0], gate), loc_of(eb0), "",
+                  "a frame can be emitted before (or without) the declared-length check: an over-long write leaves a complete frame the decoder will not deliver")
+    iolib.count_rules(ctx, rep, "C14")
+
     # ---- C14.count: Encoder::encode writes only through encode_frame
     eb = anchor(F, rep, "C14.count", "encode::Encoder::encode")
     if eb is not None:
